@@ -86,6 +86,8 @@ type Ctx struct {
 	Removed bool
 	Created bool
 	encP    []byte // encoded parameters
+	// the machine was rebuilt by a restart and has not been operated since
+	postRestart bool
 }
 
 func NewCtx(g *cv.Gen, t *Tables, n, me int, kind string) *Ctx {
@@ -165,6 +167,19 @@ func (c *Ctx) Create(pr persistence.PersistRestorer) error {
 	c.SM = &sm
 	c.Created = true
 	return pr.ChannelCreated(bg, csm, c.PeerAddrs(), c.Parent)
+}
+
+// Restart replaces the live machine by the one rebuilt from a restored channel (what a client does
+// when it comes up again) and wraps it with the persister of the new process.
+func (c *Ctx) Restart(pr persistence.PersistRestorer, ch *persistence.Channel) error {
+	csm, err := channel.RestoreStateMachine(map[wallet.BackendID]wallet.Account{0: c.Accs[c.Me]}, ch)
+	if err != nil {
+		return err
+	}
+	sm := persistence.FromStateMachine(csm, pr)
+	c.SM = &sm
+	c.postRestart = true
+	return nil
 }
 
 // ---------- signatures ----------
@@ -308,6 +323,8 @@ func persisterMethod(kind string) string {
 		return "ChannelRemoved"
 	case "Create":
 		return "ChannelCreated"
+	case "Restart":
+		return "RestoreChannel"
 	}
 	return "none"
 }
@@ -320,6 +337,7 @@ func (c *Ctx) Apply(o Op) (out string, sig wallet.Sig, errText string) {
 		}
 	}()
 	m := c.SM
+	c.postRestart = false
 	var err error
 	switch o.Kind {
 	case "Init":
